@@ -521,15 +521,17 @@ def handleIter (toks : List String) (obs : String) : String × Bool × String :=
       let pre := match j with | none => xs | some j => xs.take (j + 1)
       let broke := match j with | none => false | some j => decide (j < xs.length)
       let fin := match fail with | some e => if broke then "done" else "panic " ++ clsOf e | none => "done"
+      -- the loop makes the source hand out exactly the elements it sees (C05: a broken-out Iterator stops pulling)
+      let pulledS := s!" pulled={pre.length}"
       if idx == "idx=0" then
         let r := s.iterator (fun (seen : List Int) v => (seen ++ [v], contAt j seen.length)) []
-        let want := s!"seen={fmtIntList pre} {fin}"
-        (s!"seen={fmtIntList r.1} {fmtM r.2}", obs == want, if obs == want then "" else s!"want {want}")
+        let want := s!"seen={fmtIntList pre} {fin}" ++ pulledS
+        (s!"seen={fmtIntList r.1} {fmtM r.2}" ++ pulledS, obs == want, if obs == want then "" else s!"want {want}")
       else if idx == "idx=1" then
         let r := s.indexedIterator (fun (seen : List (Nat × Int)) i v => (seen ++ [(i, v)], contAt j seen.length)) []
         let fmtP := fmtList (fun (p : Nat × Int) => s!"{p.1}:{p.2}")
-        let want := s!"seen={fmtList (fun (p : Int × Nat) => s!"{p.2}:{p.1}") pre.zipIdx} {fin}"
-        (s!"seen={fmtP r.1} {fmtM r.2}", obs == want, if obs == want then "" else s!"want {want}")
+        let want := s!"seen={fmtList (fun (p : Int × Nat) => s!"{p.2}:{p.1}") pre.zipIdx} {fin}" ++ pulledS
+        (s!"seen={fmtP r.1} {fmtM r.2}" ++ pulledS, obs == want, if obs == want then "" else s!"want {want}")
       else ("bad-case", false, "unknown iterator form")
     | _, _ => ("bad-case", false, "unparsable iter case")
   | _ => ("bad-case", false, "unparsable iter case")
